@@ -43,41 +43,41 @@ theorem foldl_setCol (f : Col → Bytes × CV) :
 
 theorem addCols_old (res : Res) (cs : List Col) :
     addCols res true cs =
-      { res with old := cs.foldl (fun a c => setCol a (cvOfF4 c).1 (cvOfF4 c).2) res.old } := by
+      { res with old := cs.foldl (fun a c => setCol a (cvOf c).1 (cvOf c).2) res.old } := by
   induction cs generalizing res with
   | nil => rfl
   | cons c cs ih => simp only [addCols, List.foldl_cons] at ih ⊢; rw [ih]; simp [addCol]
 
 theorem addCols_new (res : Res) (cs : List Col) :
     addCols res false cs =
-      { res with cols := cs.foldl (fun a c => setCol a (cvOfF4 c).1 (cvOfF4 c).2) res.cols } := by
+      { res with cols := cs.foldl (fun a c => setCol a (cvOf c).1 (cvOf c).2) res.cols } := by
   induction cs generalizing res with
   | nil => rfl
   | cons c cs ih => simp only [addCols, List.foldl_cons] at ih ⊢; rw [ih]; simp [addCol]
 
-theorem nodup_of (cs : List Col) (h : nodupNames cs = true) : (cs.map fun c => (cvOfF4 c).1).Nodup := by
-  simpa [nodupNames, cvOfF4] using h
+theorem nodup_of (cs : List Col) (h : nodupNames cs = true) : (cs.map fun c => (cvOf c).1).Nodup := by
+  simpa [nodupNames, cvOf] using h
 
 theorem res_eq_view (rel op : Bytes) (old new : Option (List Col))
     (hwo : oldWf old = true) (hwf : tupWf new = true) :
-    tupRes (oldRes { relation := rel, operation := op } old) false new = viewDmlF4 rel op old new := by
+    tupRes (oldRes { relation := rel, operation := op } old) false new = viewDml rel op old new := by
   have ho : oldRes { relation := rel, operation := op } old =
-      { relation := rel, operation := op, old := viewColsF4 old } := by
+      { relation := rel, operation := op, old := viewCols old } := by
     cases old with
     | none => rfl
     | some cs =>
       have hnd : nodupNames cs = true := by
         simp only [oldWf, Bool.and_eq_true] at hwo; exact hwo.2
-      simp only [oldRes, addCols_old, viewColsF4]
-      rw [foldl_setCol cvOfF4 cs [] (by simp) (nodup_of cs hnd)]
+      simp only [oldRes, addCols_old, viewCols]
+      rw [foldl_setCol cvOf cs [] (by simp) (nodup_of cs hnd)]
       simp
   rw [ho]
   cases new with
   | none => rfl
   | some cs =>
     obtain ⟨_, hnd, _⟩ := tupWf_some hwf
-    simp only [tupRes, addCols_new, viewDmlF4, viewColsF4]
-    rw [foldl_setCol cvOfF4 cs [] (by simp) (nodup_of cs hnd)]
+    simp only [tupRes, addCols_new, viewDml, viewCols]
+    rw [foldl_setCol cvOf cs [] (by simp) (nodup_of cs hnd)]
     simp
 
 theorem tup_cons (new : Option (List Col)) (hwf : tupWf new = true) : ∃ X, renderTup new = 32 :: X := by
@@ -93,7 +93,7 @@ theorem tup_cons (new : Option (List Col)) (hwf : tupWf new = true) : ∃ X, ren
 theorem parse_dml (rel op : Bytes) (old new : Option (List Col))
     (hrel : Scan .relation rel) (hop : ∀ c ∈ op, inert .operation c = true) (hnt : op ≠ bTRUNCATE)
     (hwo : oldWf old = true) (hwf : tupWf new = true) :
-    parseIdx (renderDml rel op old new) = .ok (viewDmlF4 rel op old new) := by
+    parseIdx (renderDml rel op old new) = .ok (viewDml rel op old new) := by
   obtain ⟨X, hX⟩ := tup_cons new hwf
   have hmsg : renderDml rel op old new =
       bTablePfx ++ (rel ++ 58 :: 32 :: (op ++ 58 :: 32 :: tailOf old X)) := by
@@ -245,33 +245,5 @@ theorem parse_empty_tuple (rel op : Bytes) (hrel : Scan .relation rel)
 theorem opInert_INSERT : ∀ c ∈ bINSERT, inert .operation c = true := by decide
 theorem opInert_UPDATE : ∀ c ∈ bUPDATE, inert .operation c = true := by decide
 theorem opInert_DELETE : ∀ c ∈ bDELETE, inert .operation c = true := by decide
-
-
-theorem litValueF4_eq {v : Literal} (h : v.isBits = false) : litValueF4 v = litValue v := by
-  cases v <;> first | rfl | simp [Literal.isBits] at h
-
-theorem viewColsF4_eq {t : Option (List Col)} (h : hasBits t = false) : viewColsF4 t = viewCols t := by
-  cases t with
-  | none => rfl
-  | some cs =>
-    simp only [hasBits, List.any_eq_false] at h
-    simp only [viewColsF4, viewCols]
-    apply List.map_congr_left
-    intro c hc
-    simp [cvOfF4, cvOf, litValueF4_eq (by simpa using h c hc)]
-
-theorem viewF4_eq (m : Change) (h : NoBits m) : viewF4 m = view m := by
-  cases m with
-  | insert r new =>
-    have h' : hasBits new = false := by simpa [NoBits, noBits] using h
-    simp [viewF4, view, viewDmlF4, viewDml, viewColsF4_eq h']; rfl
-  | update r old new =>
-    have h' : hasBits old = false ∧ hasBits new = false := by simpa [NoBits, noBits] using h
-    simp [viewF4, view, viewDmlF4, viewDml, viewColsF4_eq h'.1, viewColsF4_eq h'.2]
-  | delete r old =>
-    have h' : hasBits old = false := by simpa [NoBits, noBits] using h
-    simp [viewF4, view, viewDmlF4, viewDml, viewColsF4_eq h']; rfl
-  | _ => rfl
-
 
 end PgBifrost.Parser
